@@ -204,7 +204,7 @@ def run(ctx):
             k2 = logic.answer_kind(it.answers["rec"][1])
             if not fl and (cc[0] & 1) and k1 == "Unique":
                 classes.append("F14")
-            if not fl and (cc[0] & 2) and k1 == "AmbigDefinite" and k2 == "Unique":
+            if not fl and (cc[0] & 2) and k1 == "AmbigDefinite" and k2 == "Unique" and sc.guidance_repeats(it.answers["slg"][1]):
                 classes.append("F1")
             if not fl and len(cc) > 1 and cc[1] == 1 and k1 == "NoSolution":
                 classes.append("F7q")
@@ -225,7 +225,25 @@ def run(ctx):
         "answer_pairs": dict(pair_hist), "not_compared": dict(not_compared),
         "corpus_programs_not_lowering": len([e for e in perr if e[0] >= 100000]) // 2,
     }
-    ctx.cov["known_class_share"] = round(ctx.cov.get("known_class_hits", 0) / max(1, len(exprs)), 4)
+    # share of the compared fragment items whose INPUT lies in the F1 class (narrow and previous wide definition)
+    fr = [k for k in idx if items[k].prog is not None and pg.has_exists(items[k].goal)]
+    dd, ee = {}, []
+    for k in fr:
+        it = items[k]
+        pn, qn = "P%d" % it.pidx, "q%d" % k
+        if pn not in dd:
+            dd[pn] = ("program", pg.to_model(it.prog))
+        dd[qn] = ("query", pg.query_model(it.goal, it.prog.symtab())[0])
+        ee.append(([pn, qn], "((if f1_class %s %s then 1 else 0) + (if f1_class_wide %s %s then 2 else 0) + (if f14_class %s %s then 4 else 0))%%N" % (pn, qn, pn, qn, pn, qn)))
+    cc, fl = logic.coq_codes(ctx.work, "shares", dd, ee, shard=max(20, len(ee) // 16 + 1))
+    if fl:
+        raise core.CheckFailure("coq evaluation failed: %s" % (fl[0],))
+    n = max(1, len(exprs))
+    ctx.cov["known_class_shares"] = {"F1": round(sum(1 for c in cc if c & 1) / n, 4),
+                                     "F1-previous-wide-definition": round(sum(1 for c in cc if c & 2) / n, 4),
+                                     "F14": round(sum(1 for c in cc if c & 4) / n, 4)}
+    ctx.cov["known_class_forgiven_alarms"] = ctx.cov.get("known_class_hits", 0)
+    ctx.cov["known_class_share"] = round(sum(1 for c in cc if c & 5) / n, 4)
     ctx.cov["inconclusive"] = sum(not_compared.values())
 
 
